@@ -453,6 +453,28 @@ ELEMENT_CONTRACTS = {
     'orderBy-thenBy': ('$c.orderBy(tick($, $ mod 2)).thenBy(tick(100 + $, '
                        '$))', lambda L, o: {0: ('set', L),
                                             100: ('subset', L)}),
+    # an ordered collection bound to a variable and iterated twice: the
+    # keys were computed for the first pass
+    'orderBy-twice': ('let(s => $c.orderBy(tick($, -$))) -> '
+                      '[$s.toList(), $s.toList(), $s.len()]',
+                      lambda L, o: {0: ('set', L)}),
+    'orderBy-assert': ('$c.orderBy(tick($, $)).assert($.len() >= 0)',
+                       lambda L, o: {0: ('set', L)}),
+    'orderBy-thenBy-twice': (
+        'let(s => $c.orderBy(tick($, $ mod 2)).thenBy(tick(100 + $, $))) -> '
+        '[$s.toList(), $s.toList()]',
+        lambda L, o: {0: ('set', L), 100: ('subset', L)}),
+    # groupBy with an aggregator is lazy: the aggregator runs for a group
+    # when that group is consumed
+    'groupBy-first': ('$c.groupBy($ mod 2, $, tick(200 + $[0], $.len()))'
+                      '.first(null)',
+                      lambda L, o: {200: ('prefix', _first_keys(L),
+                                          min(1, len(_first_keys(L))))}),
+    'groupBy-then-select': (
+        '$c.groupBy($ mod 2, $, tick(200 + $[0], $.len()))'
+        '.select(tick(300 + $[0], $))',
+        lambda L, o: {'log': [x for fv in _first_keys(L)
+                              for x in (200 + fv, 300 + fv % 2)]}),
     'max-min-sum': ('[$c.sum(0), $c.max(0), $c.min(0)]', lambda L, o: {}),
     'dict-comprehension': ('dict($c.select([tick($, $), tick(100 + $, 1)]))',
                            lambda L, o: {0: L, 100: L}),
@@ -495,6 +517,13 @@ def check_elements(run, case):
         run.violate('element-contract-raises', case, '%s with %r raised %s: '
                     '%s' % (text, L, type(got[1]).__name__, got[1]),
                     exc=got[1], input_class=name)
+        return
+    if 'log' in exp:
+        # the whole trace, in order (interleaving of two lambdas)
+        if log != exp['log']:
+            run.violate('lambda-not-applied-once-per-element-in-order', case,
+                        '%s with c=%r: evaluation log %r, contract %r' % (
+                            text, L, log, exp['log']), input_class=name)
         return
     offsets = sorted(exp, reverse=True)
 
